@@ -561,7 +561,9 @@ def _write_evidence(prop, mod, suites, tier, seed, agg, wall, nviol, known_lines
     with open(tmp, 'w') as fh:
         json.dump(ev, fh, indent=1, sort_keys=True)
         fh.write('\n')
-    os.replace(tmp, os.path.join(d, '%s.json' % prop))
+    # debugging runs (suite filter / alternative repo) never overwrite the real evidence
+    debug = bool(os.environ.get('VERIF_SUITES')) or boot.REPO != os.path.realpath('/repo')
+    os.replace(tmp, os.path.join(d, ('.debug-%s.json' if debug else '%s.json') % prop))
 
 
 if __name__ == '__main__':
